@@ -111,6 +111,7 @@ def run(ctx: Ctx) -> None:
             order = sorted(range(len(lst)),
                            key=lambda i: (i * 0.6180339887498949) % 1.0)
             qs.append(collections.deque(lst[i] for i in order))
+        qs = [q_ for q_ in qs if q_]
         while qs:
             for q_ in qs:
                 items.append(q_.popleft())
